@@ -509,7 +509,7 @@ pub fn gen(r: &mut Rng, d: u32, cfg: &GenCfg) -> Ast {
                     Some(Ast::Str((*r.pick(&pool)).to_string()))
                 }
                 10 => Some(Ast::Bool(r.chance(1, 2))),
-                11 if allowed(cfg, "errlit") => Some(Ast::Err(*r.pick(&["#N/A", "#REF!", "#DIV/0!", "#VALUE!", "#NAME?", "#NUM!", "#NULL!", "Data2!#REF!", "Sheet1!#REF!"]))),
+                11 if allowed(cfg, "errlit") => Some(Ast::Err(*r.pick(&["#N/A", "#REF!", "#DIV/0!", "#VALUE!", "#NAME?", "#NUM!", "#NULL!", "Data2!#REF!", "Sheet1!#REF!", "'Q#1'!#REF!", "'a#b'!#REF!"]))),
                 12 if allowed(cfg, "name") => {
                     let mut pool: Vec<&str> = vec!["MyName", "rate", "total_2024", "_x", "Über"];
                     if allowed(cfg, "name-reflike") {
